@@ -409,6 +409,32 @@ func instantFlow(c *Ctx, p *Prog, m *Model) {
 				}
 			}
 		}
+		// ... and the function does not emit through a route that stamps an instant of its own: a callee of the package
+		// that takes no instant but reaches time.Now() and the record printer would print "now" for this record
+		for _, cs := range callsIn(fn) {
+			cal := calleeOf(cs)
+			if cal == nil || cal.Pkg != p.Slog || timeParam(cal) != nil || cal == fn {
+				continue
+			}
+			stamps, prints := false, false
+			reach := staticReach([]*ssa.Function{cal}, func(f *ssa.Function) bool { return f.Pkg != p.Slog })
+			for g := range reach {
+				if m.SinkFns[g] || nm(g) == "printImpl" {
+					prints = true
+				}
+				for _, c2 := range callsIn(g) {
+					if c3 := calleeOf(c2); c3 != nil && c3.String() == "time.Now" {
+						stamps = true
+					}
+				}
+			}
+			if stamps && prints && !m.SinkFns[cal] {
+				// the sink's own diagnostic record is a record of its own: excluded by !SinkFns; everything else is this record
+				if pr := p.Method(p.Slog, "Entry", "print"); pr != nil && reach[pr] && !reachOnlyViaSink(p, m, cal, pr) {
+					probs = append(probs, fmt.Sprintf("%s (called at %s) prints a record stamped with time.Now()", shortName(cal), p.Pos(instrPos(cs))))
+				}
+			}
+		}
 		for _, fs := range fieldStores(fn) {
 			if isTime(fs.Val.Type()) {
 				used = true
@@ -495,6 +521,43 @@ func registrationStores(c *Ctx, p *Prog, m *Model) {
 		}
 		r.Check(bad == "", "R18.6", "RemoveKnownPathMapping", p.FuncPos(rm), "removes exactly the mapping given", "RemoveKnownPathMapping "+bad+": other registrations are lost")
 	}
+}
+
+// regexpRuleList: (R18.6) the list of regexp rules is only ever appended to, cut, or replaced as a whole: no function
+// overwrites an element at a position it remembered (positions shift when a rule before it is removed), and a
+// registration appends its rule on every path.
+func regexpRuleList(c *Ctx, p *Prog) {
+	r := c.R
+	g := p.Global(p.Slog, "knownPathRegexpMap")
+	add := p.Func(p.Slog, "AddKnownPathRegexpMapping")
+	if g == nil || add == nil {
+		r.OkTrivial("R18.6", "regexp-list:none", "-", "no regexp rule list")
+		return
+	}
+	var probs []string
+	for _, fn := range p.RepoFuncs() {
+		if fn.Pkg != p.Slog {
+			continue
+		}
+		for _, gs := range globalStores(fn) {
+			if gs.G == g && gs.Kind == "elem" {
+				probs = append(probs, fmt.Sprintf("%s overwrites an element of the rule list at a computed position (%s)", shortName(fn), p.Pos(instrPos(gs.Instr))))
+			}
+		}
+	}
+	lo, _ := countOnPaths(add, func(in ssa.Instruction) bool {
+		st, ok := in.(*ssa.Store)
+		if !ok || st.Addr != ssa.Value(g) {
+			return false
+		}
+		call, ok := strip(st.Val).(*ssa.Call)
+		return ok && isBuiltinCall(call, "append")
+	})
+	if lo < 1 {
+		// an early return is fine only for a pattern that does not compile
+		probs = append(probs, "a registration can return without appending its rule")
+	}
+	r.Check(len(probs) == 0, "R18.6", "regexp-list", p.FuncPos(add), "rules are appended; no element is overwritten in place", strings.Join(probs, "; ")+": after rules were removed a remembered position names another rule, which is then lost although it is still registered")
 }
 
 var _ = token.ADD
@@ -1762,4 +1825,124 @@ func tagWidthSetter(c *Ctx, p *Prog) {
 	if n == 0 {
 		r.Unk("R06.3", "tag-width:setter", "-", "no function stores its parameter into the tag width")
 	}
+}
+
+// ---- destination wrappers keep no per-record state (C08 R08.6) --------------------------------------------------------
+//
+// One wrapper object serves every goroutine that logs to its destination. The severity announced by SetLevel and
+// the Write that follows are two calls: a wrapper that stores anything in itself between them (a plain field or an
+// atomic one) makes a record depend on what another goroutine announced in between. Every type of the package
+// with a Write([]byte) method other than the encoder is scanned: SetLevel and Write store to no field of the
+// receiver and hand no field address to sync/atomic.
+func wrappersStateless(c *Ctx, p *Prog, rule string) {
+	r := c.R
+	n := 0
+	for _, mem := range p.Slog.Members {
+		tn, ok := mem.(*ssa.Type)
+		if !ok || tn.Name() == "PrintCtx" {
+			continue
+		}
+		tobj, _ := tn.Object().(*types.TypeName)
+		if tobj == nil {
+			continue
+		}
+		wr := p.methodDirect(p.Slog, tobj, "Write")
+		if wr == nil || wr.Signature.Params().Len() != 1 || wr.Signature.Params().At(0).Type().String() != "[]byte" {
+			continue
+		}
+		n++
+		var probs []string
+		for _, mn := range []string{"Write", "SetLevel"} {
+			fn := p.methodDirect(p.Slog, tobj, mn)
+			if fn == nil || len(fn.Blocks) == 0 {
+				continue
+			}
+			rc := receiver(fn)
+			for _, fs := range fieldStores(fn) {
+				if rc != nil && strip(fs.Base) == ssa.Value(rc) && fs.Kind != "addr-escape" {
+					probs = append(probs, fmt.Sprintf("%s.%s stores to its field %s at %s", tn.Name(), mn, fs.Field, p.Pos(instrPos(fs.Instr))))
+				}
+			}
+			for _, cs := range callsIn(fn) {
+				cal := calleeOf(cs)
+				if cal == nil || cal.Pkg == nil || cal.Pkg.Pkg.Path() != "sync/atomic" {
+					continue
+				}
+				for _, a := range cs.Common().Args {
+					if fa, ok := a.(*ssa.FieldAddr); ok && rc != nil && strip(fa.X) == ssa.Value(rc) {
+						if strings.HasPrefix(cal.Name(), "Store") || strings.HasPrefix(cal.Name(), "Swap") || strings.HasPrefix(cal.Name(), "Add") || strings.HasPrefix(cal.Name(), "CompareAndSwap") {
+							probs = append(probs, fmt.Sprintf("%s.%s writes its field %s atomically at %s", tn.Name(), mn, nm(structOf(fa.X.Type()).Field(fa.Field)), p.Pos(instrPos(cs))))
+						}
+					}
+				}
+			}
+		}
+		r.Check(len(probs) == 0, rule, "stateless:"+tn.Name(), p.FuncPos(wr), "SetLevel and Write keep nothing in the wrapper", "a destination wrapper carries state from one call to the next: "+strings.Join(probs, "; ")+"; the object is shared by all goroutines writing to that destination, so a record is filtered, routed or written by what another goroutine stored in between")
+	}
+	if n == 0 {
+		r.Unk(rule, "stateless:none", "-", "no writer type found")
+	}
+}
+
+// ---- terminating leaves the destinations as they are (C12 R12.8) -------------------------------------------------------
+//
+// A Panic that is recovered is followed by more records. The terminating function and the private helpers it calls
+// outside the record printer close no destination and write no writer-set state: otherwise the record of the next
+// admitted Panic/Fatal is not written although it terminates.
+func terminationKeepsWriters(c *Ctx, p *Prog, m *Model) {
+	r := c.R
+	term := p.Method(p.Slog, "Entry", "logContext")
+	pr := p.Method(p.Slog, "Entry", "print")
+	if term == nil {
+		r.Unk("R12.8", "termination:writers", "-", "logContext not found")
+		return
+	}
+	ph := privateHelper(p)
+	region := staticReach([]*ssa.Function{term}, func(f *ssa.Function) bool {
+		return f != term && (f == pr || !ph(f) || m.Spine[f])
+	})
+	var probs []string
+	for fn := range region {
+		if fn != term && (fn == pr || m.Spine[fn]) {
+			continue
+		}
+		for _, cs := range callsIn(fn) {
+			if invokeName(cs) == "Close" {
+				probs = append(probs, fmt.Sprintf("%s closes a destination at %s", shortName(fn), p.Pos(instrPos(cs))))
+			}
+			if cal := calleeOf(cs); cal != nil && cal.Name() == "Close" && cal.Pkg == p.Slog {
+				probs = append(probs, fmt.Sprintf("%s closes a destination at %s", shortName(fn), p.Pos(instrPos(cs))))
+			}
+		}
+		for _, fs := range fieldStores(fn) {
+			if fs.Struct == "dualWriter" || (fs.Struct == "Entry" && fs.Field == "writer") {
+				probs = append(probs, fmt.Sprintf("%s writes %s.%s at %s", shortName(fn), fs.Struct, fs.Field, p.Pos(instrPos(fs.Instr))))
+			}
+		}
+	}
+	sort.Strings(probs)
+	r.Check(len(probs) == 0, "R12.8", "termination:writers", p.FuncPos(term), "the terminating function closes no destination and leaves the writer sets alone", strings.Join(probs, "; ")+": after a recovered Panic the next admitted Panic/Fatal still terminates but its record is no longer written")
+}
+
+// reachOnlyViaSink: every static route from fn to target passes a sink function (the diagnostic record the sink
+// issues after a failed Write is a record of its own, with its own instant).
+func reachOnlyViaSink(p *Prog, m *Model, fn, target *ssa.Function) bool {
+	seen := map[*ssa.Function]bool{}
+	var dfs func(f *ssa.Function) bool // true if target reachable avoiding sinks
+	dfs = func(f *ssa.Function) bool {
+		if f == target {
+			return true
+		}
+		if seen[f] || f.Pkg != p.Slog || m.SinkFns[f] {
+			return false
+		}
+		seen[f] = true
+		for _, cs := range callsIn(f) {
+			if cal := calleeOf(cs); cal != nil && dfs(cal) {
+				return true
+			}
+		}
+		return false
+	}
+	return !dfs(fn)
 }
